@@ -76,6 +76,15 @@ CLAIMED["C18"] = (
     "DESIGN.md 3.8",
 )
 
+CLAIMED["C16"] = (
+    "resolvesim",
+    "deterministic simulation: real sync and async resolvers on a virtual clock over scripted nameservers (tier A) and over real Do53 nameservers on the simulated network (tier B); reference resolution model + sync==async trace equality + direct invariants",
+    "exploration",
+    "Tier A: seeded per-server outcome scripts (21 outcome kinds incl. clock jumps) x resolver settings x 1-3 consecutive resolutions sharing a cache, executed by dns.resolver.Resolver, dns.asyncresolver.Resolver (virtual-time asyncio loop) and a reference model written from the documentation; the query sequence with send times and timeouts, the result/exception, the answer rrset, canonical name and expiration, total simulated time and live cache keys must agree. Tier B: real Do53Nameserver over netsim with datagram loss/garbage/spoofing/wrong id, TC->TCP, refused/EOF/garbage TCP, slow and late replies; sync and async traces must be equal, no broken server is asked again, TC is retried over TCP on the same server, the answer is the genuine one.",
+    "Trusted: reference model in checks/c16.py (candidate rules, server removal, back-off, lifetime, chaining bound MAX_CHAIN=16, cache keys); 'never asked again' is per candidate name (the server list is rebuilt per candidate by design); rotate is off; DoH/DoT/DoQ nameservers and the trio backend are not exercised.",
+    "DESIGN.md 3.6",
+)
+
 PENDING_REASON = "check under construction in this session (DESIGN.md section 8 build order); not claimed until its quick command is green on the unchanged tree"
 ALL = [f"C{i:02d}" for i in range(1, 21)]
 
